@@ -106,6 +106,7 @@ type zzRound struct {
 	signed    bool
 	tipAt     time.Time // a better tip for this round's parent was delivered at
 	tipBetter bool
+	watching  bool // the round's stale monitor has asked for block notifications
 }
 
 type zzSubmit struct {
@@ -148,6 +149,9 @@ func (w *zzWorld) ChainID() *wire.Hash                { h := wire.Hash{}; return
 func (w *zzWorld) BlockWaiter(height uint64) (<-chan *blockchain.BlockNode, error) {
 	ch := make(chan *blockchain.BlockNode, 1)
 	w.waiters = append(w.waiters, ch)
+	if w.cur != nil {
+		w.cur.watching = true
+	}
 	return ch, nil
 }
 
@@ -445,7 +449,10 @@ func zzRunC08(r *sim.Run) {
 						// (the clock of "abandon the round" starts only if somebody was told: a tip that
 						// comes in the instant between a notification and the monitor's re-registration
 						// reaches no waiter, here as with the real chain's one-shot waiters)
-						if w.cur != nil && w.cur.prev == *cur.Hash && !w.cur.tipBetter && len(ws) > 0 {
+						// ... and a tip that comes after the template was drawn but before the round's
+						// monitor exists is visible to the miner all the same: the best block is no longer
+						// the template's parent when the monitor starts
+						if w.cur != nil && w.cur.prev == *cur.Hash && !w.cur.tipBetter && (len(ws) > 0 || !w.cur.watching) {
 							w.cur.tipBetter, w.cur.tipAt = true, time.Now()
 						}
 					}
